@@ -8,7 +8,11 @@
                                    set_default_whitespace_chars, inline_literals_using
     pyparsing/core.py:456-465      ParserElement.__init__ (whiteChars, copyDefaultWhiteChars)
     pyparsing/core.py:548-553      ParserElement.copy
-    pyparsing/core.py:1791-1799    set_whitespace_chars
+    pyparsing/core.py:1781-1800    ignore_whitespace / leave_whitespace (ParserElement; the overrides at :3940-3962
+                                   ParseExpression, :4732-4748 ParseElementEnhance, :5765-5771 Forward set the
+                                   same flag on the element itself and replace *children* by copies)
+    pyparsing/core.py:1802-1811    set_whitespace_chars
+    pyparsing/core.py:800-812      preParse (whitespace part)
     pyparsing/core.py:1028-1155    _parse, reset_cache, disable_memoization, enable_left_recursion,
                                    enable_packrat
     pyparsing/core.py:2620-2624    Keyword.set_default_keyword_chars
@@ -64,6 +68,7 @@ structure Expr where
   ws : List Char
   copyDef : Bool
   fwdEmpty : Bool := false   -- a `Forward` that has not been assigned an expression yet (`expr is None`)
+  skip : Bool := true        -- `skipWhitespace`
   deriving DecidableEq, Repr, Inhabited
 
 /-- static class data of `__diag__` / `__compat__` (generated from the live package) -/
@@ -190,23 +195,43 @@ def enableAllWarnings (cfg : Cfg) : List String → Flags → Flags × Option Er
     expressions get (their `__init__` does not take over any child's whitespace) -/
 def newExpr (s : State) : Expr := { ws := pySet s.defaultWs, copyDef := true }
 
+/-- `MatchFirst([e, ...])` / `Or([e, ...])` over an existing expression `e` and fresh literals
+    (core.py:4258-4266, :4416-4424): `whiteChars`/`copyDefaultWhiteChars` as for any new element, but
+    `self.skipWhitespace = all(x.skipWhitespace for x in self.exprs)` -/
+def newAlt (s : State) (e : Expr) : Expr := { ws := pySet s.defaultWs, copyDef := true, skip := e.skip }
+
 /-- `Forward()` (core.py `Forward.__init__(None)` → `ParseElementEnhance.__init__(None)`): no expression yet -/
 def newFwd (s : State) : Expr := { ws := pySet s.defaultWs, copyDef := true, fwdEmpty := true }
 
 /-- a composite built over an existing expression (`And.__init__`, `ParseElementEnhance.__init__`) and
     `Forward.__lshift__` (`fwd <<= e`): `self.set_whitespace_chars(e.whiteChars,
     copy_defaults=e.copyDefaultWhiteChars)` — the child's set *and flag* are taken over, not the current default -/
-def wrapExpr (e : Expr) : Expr := { ws := e.ws, copyDef := e.copyDef }
+def wrapExpr (e : Expr) : Expr := { ws := e.ws, copyDef := e.copyDef, skip := e.skip }
 
-/-- `copy()`: `ParserElement.copy` (core.py:532-559) re-reads the default iff `copyDefaultWhiteChars`;
+/-- `copy()`: `ParserElement.copy` (core.py:532-559) re-reads the default iff `copyDefaultWhiteChars`
+    — whatever `skipWhitespace` is; every other attribute (incl. `skipWhitespace`) is copied;
     `Forward.copy` (core.py:5811-5817) of an *unassigned* Forward is `ret = Forward(); ret <<= self` -/
 def copyExpr (s : State) (e : Expr) : Expr :=
   if e.fwdEmpty then wrapExpr e
   else if e.copyDef then { e with ws := pySet s.defaultWs } else e
 
-/-- `set_whitespace_chars(chars, copy_defaults)` (core.py:1791-1799) -/
+/-- `set_whitespace_chars(chars, copy_defaults)` (core.py:1802-1811): also `self.skipWhitespace = True` -/
 def exprSetWs (chars : String) (copyDefaults : Bool) (e : Expr) : Expr :=
-  { e with ws := pySet chars, copyDef := copyDefaults }
+  { e with ws := pySet chars, copyDef := copyDefaults, skip := true }
+
+/-- `leave_whitespace()` (core.py:1791-1800): `self.skipWhitespace = False`; `whiteChars` and
+    `copyDefaultWhiteChars` stay. The overrides for composites do the same to the element itself and
+    replace its children by copies (the user's other expressions are not touched); `Forward`'s only
+    sets the flag. -/
+def exprLeaveWs (e : Expr) : Expr := { e with skip := false }
+
+/-- `ignore_whitespace()` (core.py:1781-1789): `self.skipWhitespace = True`; nothing else -/
+def exprIgnoreWs (e : Expr) : Expr := { e with skip := true }
+
+/-- the whitespace part of `preParse` (core.py:800-812), on the rest of the input:
+    `if self.skipWhitespace: while loc < instrlen and instring[loc] in white_chars: loc += 1` -/
+def preParseWs (e : Expr) (inp : List Char) : List Char :=
+  if e.skip then inp.dropWhile (fun ch => e.ws.contains ch) else inp
 
 def modifyNth {α} (f : α → α) : Nat → List α → List α
   | _, [] => []
@@ -234,6 +259,9 @@ inductive Op where
   | wrapExpr (i : Nat)                                -- Group(users[i]) / users[i] + ... (new composite)
   | newFwd                                            -- Forward()
   | assignFwd (i j : Nat)                             -- users[i] <<= users[j]   (users[i] a Forward)
+  | leaveWs (i : Nat)                                 -- users[i].leave_whitespace()
+  | ignoreWs (i : Nat)                                -- users[i].ignore_whitespace()
+  | newAlt (i : Nat)                                  -- MatchFirst([users[i], Literal]) / Or([users[i], Literal])
   deriving DecidableEq, Repr, Inhabited
 
 def stepOp (cfg : Cfg) (o : Op) (s : State) : State × Option Err :=
@@ -270,6 +298,12 @@ def stepOp (cfg : Cfg) (o : Op) (s : State) : State × Option Err :=
   | .assignFwd i j =>
     match s.users[j]? with
     | some e => ({ s with users := modifyNth (fun _ => wrapExpr e) i s.users }, none)
+    | none => (s, none)
+  | .leaveWs i => ({ s with users := modifyNth exprLeaveWs i s.users }, none)
+  | .ignoreWs i => ({ s with users := modifyNth exprIgnoreWs i s.users }, none)
+  | .newAlt i =>
+    match s.users[i]? with
+    | some e => ({ s with users := s.users ++ [newAlt s e] }, none)
     | none => (s, none)
 
 /-! ### `reset_pyparsing_context` (testing.py:47-127) -/
